@@ -9,8 +9,12 @@ DEVS = [None, ("stretch-x", 3), ("mirror-x",), ("no-solution",), ("push", 0, 25)
 def props_of(e):
     cb = e.get("control_behavior", {}) or {}
     out = {}
-    if "station" in e:
-        out["station"] = e["station"]
+    # every top-level static field of the exported entity (bar, station, manual_trains_limit, override_stack_size, direction, ...);
+    # a field that is present is reported even when its value is 0 (0 is meaningful: `bar: 0` blocks every slot)
+    for k, v in e.items():
+        if k in ("entity_number", "name", "position", "control_behavior", "always_on", "tags", "player_description"):
+            continue
+        out[k] = v if isinstance(v, (int, str)) and not isinstance(v, bool) else repr(v)
     if e.get("always_on"):
         out["always_on"] = 1
     if cb.get("use_colors"):
@@ -77,6 +81,13 @@ def programs(tier):
               'Entity h = place("small-lamp", 7, -5, {always_on: 1});\nEntity k = place("small-lamp", 7, -7, {always_on: 1});\n',
               [("small-lamp", 1, -5, ()), ("small-lamp", 3, -5, ()), ("inserter", 5, -5, ()), ("small-lamp", 7, -5, (("always_on", 1),)),
                ("small-lamp", 7, -7, (("always_on", 1),))]))
+    # static properties whose value is 0 (literal, computed, or the first iteration of a loop) next to non-zero ones
+    P.append(("zero-props", 'for i in 0..4 {\n    Entity ch = place("steel-chest", i * 2, -10, {bar: i});\n}\n'
+              'Entity st = place("train-stop", -6, -16, {manual_trains_limit: 0, station: "Depot"});\nEntity s2 = place("train-stop", 6, -16, {manual_trains_limit: 2, station: "Mine"});\n'
+              'Entity ins = place("inserter", 3, -6, {override_stack_size: 0});\nEntity in2 = place("inserter", 5, -6, {override_stack_size: 3});\n',
+              [("steel-chest", i * 2, -10, (("bar", i),)) for i in range(4)] +
+              [("train-stop", -6, -16, (("manual_trains_limit", 0), ("station", "Depot"))), ("train-stop", 6, -16, (("manual_trains_limit", 2), ("station", "Mine"))),
+               ("inserter", 3, -6, (("override_stack_size", 0),)), ("inserter", 5, -6, (("override_stack_size", 3),))]))
     big = [(500, 20), (501, 20)] + ([(1001, 40)] if tier == "thorough" else [])
     for n, w in big:
         P.append((f"grid-{n}", f'for i in 0..{n} {{\n    Entity l = place("small-lamp", i % {w}, 0 - (i / {w}) - 5);\n}}\n',
